@@ -1078,6 +1078,9 @@ namespace bloch::runtime {
                 rc->instanceFields = rc->base->instanceFields;
                 rc->instanceFieldIndex = rc->base->instanceFieldIndex;
                 rc->vtable = rc->base->vtable;
+                // The inherited fields are this class's fields too: an object of a class that
+                // only inherits its qubit or @tracked fields owns them all the same.
+                rc->hasTrackedFields = rc->base->hasTrackedFields;
             }
             for (auto& member : clsNode->members) {
                 if (auto field = dynamic_cast<FieldDeclaration*>(member.get())) {
@@ -1201,6 +1204,7 @@ namespace bloch::runtime {
             rc->instanceFields = rc->base->instanceFields;
             rc->instanceFieldIndex = rc->base->instanceFieldIndex;
             rc->vtable = rc->base->vtable;
+            rc->hasTrackedFields = rc->base->hasTrackedFields;
         }
 
         for (auto& member : tmpl->members) {
